@@ -7,6 +7,11 @@ import (
 )
 
 func registerK8s() {
+	// the scheme is only consulted by SetControllerReference (itself an intrinsic)
+	intrinsics["github.com/DataDog/extendeddaemonset/zzverif/fakeapi.NewScheme"] = func(fr *frame, a []value) value {
+		var cell value = structure{}
+		return &cell
+	}
 	intrinsics["k8s.io/apimachinery/pkg/api/errors.IsNotFound"] = func(fr *frame, a []value) value {
 		return fr.statusReason(a[0]) == "NotFound"
 	}
